@@ -9,7 +9,9 @@ import (
 	_ "verif/checks/c01"
 	_ "verif/checks/c02"
 	_ "verif/checks/c04"
+	_ "verif/checks/c05"
 	_ "verif/checks/c06"
+	_ "verif/checks/c12"
 	_ "verif/checks/c19"
 )
 
